@@ -1,6 +1,7 @@
 (* Proofs about TLGen/Parser.v and TLGen/Printer.v:
      parse_total   : ParseSchema never panics, for every source string and every fuel
-     parse_print   : for every schema value of the subset, parsing its canonical text gives it back *)
+     parse_print   : for every schema value of the subset, parsing its canonical text gives it back
+     parse_terminates : the loop budget [parse] gives itself (linear in the source) is never exhausted *)
 From Coq Require Import String.
 From Coq Require Import ZArith NArith List Lia ZifyN ZifyNat ZifyBool Bool.
 From MTV Require Import Base.Bytes Base.Outcome Base.Str TLGen.Parser TLGen.Printer.
@@ -69,18 +70,18 @@ Qed.
 Lemma read_digits_live c : live c -> cres_live (read_digits c).
 Proof. intros H. apply read_digits_go_live. exact H. Qed.
 
-Lemma is_next_go_live s i c : live c -> exists v c', is_next_go s i c = COk v c' /\ live c'.
+Lemma is_next_go_live s c0 c : live c0 -> live c -> exists v c', is_next_go s c0 c = COk v c' /\ live c'.
 Proof.
-  revert i c; induction s as [|e s IH]; intros i c H; cbn [is_next_go].
+  revert c; induction s as [|e s IH]; intros c H0 H; cbn [is_next_go].
   - eauto.
   - unfold current. destruct (after c) as [|r t] eqn:E; [unfold live in H; congruence|]. cbn [hd_error].
     destruct (r =? e).
-    + apply IH. apply next_live. exact H.
-    + eexists _, _. split; [reflexivity|]. apply unread_live. exact H.
+    + apply IH; [exact H0|]. apply next_live. exact H.
+    + eexists _, _. split; [reflexivity|exact H0].
 Qed.
 
 Lemma is_next_live s c : live c -> exists v c', is_next s c = COk v c' /\ live c'.
-Proof. apply is_next_go_live. Qed.
+Proof. intros H. apply is_next_go_live; exact H. Qed.
 
 Lemma cbind_live {A B} (x : cres A) (f : A -> cursor -> pres B) :
   cres_live x -> (forall a c, live c -> pres_live (f a c)) -> pres_live (cbind x f).
@@ -191,15 +192,6 @@ Proof. intros. apply parse_runes_total. Qed.
 
 Definition ascii (s : str) : Prop := Forall (fun r => r < 128) s.
 
-Lemma utf8_len_ascii r : r < 128 -> utf8_len r = 1%nat.
-Proof. intros H. unfold utf8_len. destruct (N.ltb_spec r 128); [reflexivity|lia]. Qed.
-
-Lemma utf8_len_str_ascii s : ascii s -> utf8_len_str s = length s.
-Proof.
-  induction 1 as [|r t Hr Ht IH]; cbn [utf8_len_str length]; [reflexivity|].
-  rewrite utf8_len_ascii, IH by assumption. reflexivity.
-Qed.
-
 Lemma unread_app l b a : unread (length l) (mkcur (l ++ b) a) = mkcur b (rev l ++ a).
 Proof.
   revert a; induction l as [|z l IH]; intros a; cbn [length unread app rev before after]; [reflexivity|].
@@ -256,10 +248,10 @@ Lemma skip2_spec b x y z r : skip 2 (mkcur b (x :: y :: z :: r)) = mkcur (y :: x
 Proof. reflexivity. Qed.
 
 (* IsNext on a text that starts with the pattern *)
-Lemma is_next_go_match s i b y r :
-  is_next_go s i (mkcur b (s ++ y :: r)) = COk true (mkcur (rev s ++ b) (y :: r)).
+Lemma is_next_go_match s c0 b y r :
+  is_next_go s c0 (mkcur b (s ++ y :: r)) = COk true (mkcur (rev s ++ b) (y :: r)).
 Proof.
-  revert i b; induction s as [|e s IH]; intros i b; cbn [is_next_go app rev]; [reflexivity|].
+  revert b; induction s as [|e s IH]; intros b; cbn [is_next_go app rev]; [reflexivity|].
   unfold current; cbn [after hd_error]. rewrite N.eqb_refl.
   rewrite next_app, IH, <- app_assoc. reflexivity.
 Qed.
@@ -268,35 +260,29 @@ Lemma is_next_match s b y r : is_next s (mkcur b (s ++ y :: r)) = COk true (mkcu
 Proof. apply is_next_go_match. Qed.
 
 (* IsNext on a text [ty ++ x :: r] where [ty] does not start with the pattern and [x] does not occur
-   in the pattern: the comparison fails before the end of the text is reached, so Unread restores
-   the position exactly *)
-Lemma is_next_go_nomatch s m b ty x r :
-  ascii s -> has_prefix s ty = false -> ~ In x s ->
-  is_next_go s (length m) (mkcur (m ++ b) (ty ++ x :: r)) = COk false (mkcur b (rev m ++ ty ++ x :: r)).
+   in the pattern: the comparison fails *)
+Lemma is_next_go_nomatch s c0 b ty x r :
+  has_prefix s ty = false -> ~ In x s ->
+  is_next_go s c0 (mkcur b (ty ++ x :: r)) = COk false c0.
 Proof.
-  revert m ty; induction s as [|e s IH]; intros m ty Ha Hp Hx; [cbn in Hp; discriminate|].
-  cbn [is_next_go]. unfold current. inversion Ha as [|? ? He Hs]; subst.
+  revert b ty; induction s as [|e s IH]; intros b ty Hp Hx; [cbn in Hp; discriminate|].
+  cbn [is_next_go]. unfold current.
   destruct ty as [|t ty]; cbn [app after hd_error].
-  - destruct (N.eqb_spec x e) as [->|Hne]; [exfalso; apply Hx; left; reflexivity|].
-    rewrite unread_app. reflexivity.
-  - cbn [has_prefix] in Hp. destruct (N.eqb_spec t e) as [->|Hne].
-    + rewrite N.eqb_refl in Hp. cbn [andb] in Hp.
-      rewrite next_app. change (e :: m ++ b) with ((e :: m) ++ b).
-      rewrite utf8_len_ascii by exact He. replace (length m + 1)%nat with (length (e :: m)) by (cbn; lia).
-      rewrite IH; [|exact Hs|exact Hp|intros Hi; apply Hx; right; exact Hi].
-      cbn [rev]. rewrite <- app_assoc. reflexivity.
-    + rewrite unread_app. reflexivity.
+  - destruct (N.eqb_spec x e) as [->|Hne]; [exfalso; apply Hx; left; reflexivity|reflexivity].
+  - cbn [has_prefix] in Hp. destruct (N.eqb_spec t e) as [->|Hne]; [|reflexivity].
+    rewrite N.eqb_refl in Hp. cbn [andb] in Hp. rewrite next_app.
+    apply IH; [exact Hp|intros Hi; apply Hx; right; exact Hi].
 Qed.
 
 Lemma is_next_nomatch s b ty x r :
   ascii s -> has_prefix s ty = false -> ~ In x s ->
   is_next s (mkcur b (ty ++ x :: r)) = COk false (mkcur b (ty ++ x :: r)).
-Proof. intros Ha Hp Hx. exact (is_next_go_nomatch s [] b ty x r Ha Hp Hx). Qed.
+Proof. intros _ Hp Hx. apply is_next_go_nomatch; assumption. Qed.
 
 Lemma is_next_head s b x r : ascii s -> match s with e :: _ => x <> e | [] => False end ->
   is_next s (mkcur b (x :: r)) = COk false (mkcur b (x :: r)).
 Proof.
-  intros Ha Hx. destruct s as [|e s]; [destruct Hx|].
+  intros _ Hx. destruct s as [|e s]; [destruct Hx|].
   unfold is_next; cbn [is_next_go]. unfold current; cbn [after hd_error].
   destruct (N.eqb_spec x e); [contradiction|]. reflexivity.
 Qed.
@@ -691,7 +677,7 @@ Proof.
   cbv zeta.
   assert (Hwasc : ascii w).
   { unfold w, ascii. apply Forall_app. split; [apply ident_ascii; exact Hall|]. constructor; [lia|exact Hhasc]. }
-  rewrite utf8_len_str_ascii by exact Hwasc. rewrite <- (rev_length w), unread_app, rev_involutive.
+  rewrite <- (rev_length w), unread_app, rev_involutive.
   (* ReadAt('#'), the name is not excluded, Skip(1), ReadAt(' ') gives the id *)
   unfold w at 1. rewrite <- app_assoc. cbn [app]. unfold c_hash.
   rewrite read_at_spec by (apply ident_notin; [exact Hall|reflexivity]). cbn [cbind]. rewrite Hex.
@@ -952,5 +938,340 @@ Qed.
 Theorem parse_print : forall s, wf_schema s = true -> parse (print s) = SOk s.
 Proof.
   intros s Hw. unfold parse. apply parse_print_fuel; [exact Hw|]. unfold default_fuel. lia.
+Qed.
+
+(* ==================================================================================== *)
+(* Part 3: termination - the loop budget of [parse] is never exhausted                    *)
+
+Definition rem (c : cursor) : nat := length (after c).
+
+Lemma next_rem c : (rem (fst (next c)) <= rem c)%nat.
+Proof. unfold rem, next. destruct c as [b [|r [|r' t]]]; cbn [after fst length]; lia. Qed.
+
+Lemma next_rem_strict c : (2 <= rem c)%nat -> (rem (fst (next c)) < rem c)%nat.
+Proof. unfold rem, next. destruct c as [b [|r [|r' t]]]; cbn [after fst length]; lia. Qed.
+
+Lemma next_last c : rem c = 1%nat -> fst (next c) = c.
+Proof. unfold rem, next. destruct c as [b [|r [|r' t]]]; cbn [after fst length]; try lia. reflexivity. Qed.
+
+Lemma skip_rem n c : (rem (skip n c) <= rem c)%nat.
+Proof.
+  revert c; induction n as [|n IH]; intros c; cbn [skip]; [lia|].
+  pose proof (next_rem c) as Hn. destruct (next c) as [c' m]. cbn [fst] in Hn.
+  destruct m; [specialize (IH c'); lia|lia].
+Qed.
+
+Lemma skip1_strict b x y t : (rem (skip 1 (mkcur b (x :: y :: t))) < rem (mkcur b (x :: y :: t)))%nat.
+Proof. cbn. lia. Qed.
+
+Lemma skip_spaces_go_rem b a c : skip_spaces_go b a = Some c -> (rem c <= length a)%nat.
+Proof.
+  revert b; induction a as [|r t IH]; intros b; cbn [skip_spaces_go]; [discriminate|].
+  destruct (is_space r).
+  - destruct t as [|r' t']; [intros E; injection E as <-; cbn; lia|]. intros E. apply IH in E. cbn [length] in *. lia.
+  - intros E. injection E as <-. cbn. lia.
+Qed.
+
+Lemma skip_spaces_rem c c' : skip_spaces c = Some c' -> (rem c' <= rem c)%nat.
+Proof. apply skip_spaces_go_rem. Qed.
+
+(* ReadAt: the cursor stops on the rune it looked for, having passed exactly the runes it returns *)
+Lemma read_at_go_ok x acc b a w c : read_at_go x acc b a = COk w c ->
+  exists w' t, w = rev acc ++ w' /\ a = w' ++ x :: t /\ c = mkcur (rev w' ++ b) (x :: t).
+Proof.
+  revert acc b; induction a as [|r t IH]; intros acc b; cbn [read_at_go]; [discriminate|].
+  destruct (N.eqb_spec r x) as [->|Hne].
+  - intros E. injection E as <- <-. exists [], t. rewrite app_nil_r. auto.
+  - destruct t as [|r' t']; [discriminate|]. intros E. apply IH in E as (w' & t & -> & Ea & ->).
+    exists (r :: w'), t. cbn [rev app]. rewrite <- !app_assoc, Ea. auto.
+Qed.
+
+Lemma read_at_ok x c w c' : read_at x c = COk w c' ->
+  exists t, after c = w ++ x :: t /\ c' = mkcur (rev w ++ before c) (x :: t).
+Proof. unfold read_at. intros E. apply read_at_go_ok in E as (w' & t & -> & Ea & ->). exists t. auto. Qed.
+
+Lemma read_at_rem x c w c' : read_at x c = COk w c' -> (rem c' + length w = rem c)%nat.
+Proof. intros E. apply read_at_ok in E as (t & Ea & ->). unfold rem. rewrite Ea. cbn [after]. rewrite app_length. lia. Qed.
+
+Lemma read_digits_go_rem acc b a w c : read_digits_go acc b a = COk w c -> (rem c <= length a)%nat.
+Proof.
+  revert acc b; induction a as [|r t IH]; intros acc b; cbn [read_digits_go]; [discriminate|].
+  destruct (is_digit r).
+  - destruct t as [|r' t']; [discriminate|]. intros E. apply IH in E. cbn [length] in *. lia.
+  - intros E. injection E as _ <-. cbn. lia.
+Qed.
+
+Lemma read_digits_rem c w c' : read_digits c = COk w c' -> (rem c' <= rem c)%nat.
+Proof. apply read_digits_go_rem. Qed.
+
+(* IsNext *)
+Lemma is_next_go_false s c0 c c' : is_next_go s c0 c = COk false c' -> c' = c0.
+Proof.
+  revert c; induction s as [|e s IH]; intros c; cbn [is_next_go]; [discriminate|].
+  destruct (current c) as [r|]; [|discriminate]. destruct (r =? e); [apply IH|]. intros E. injection E as <-. reflexivity.
+Qed.
+
+Lemma is_next_false s c c' : is_next s c = COk false c' -> c' = c.
+Proof. apply is_next_go_false. Qed.
+
+Lemma is_next_go_true s c0 c c' : is_next_go s c0 c = COk true c' -> s <> [] ->
+  (rem c' < rem c)%nat \/ (rem c = 1%nat /\ c' = c /\ Forall (fun e => current c = Some e) s).
+Proof.
+  revert c; induction s as [|e s IH]; intros c E Hs; [congruence|].
+  cbn [is_next_go] in E. destruct (current c) as [r|] eqn:Ec; [|discriminate].
+  destruct (N.eqb_spec r e) as [->|Hne]; [|discriminate].
+  destruct s as [|e' s'].
+  - cbn [is_next_go] in E. injection E as <-.
+    destruct (Nat.le_gt_cases 2 (rem c)) as [H2|H1]; [left; apply next_rem_strict; exact H2|].
+    assert (rem c = 1%nat) by (unfold rem, current in *; destruct (after c); [discriminate|cbn [length] in *; lia]).
+    right. rewrite next_last by assumption. auto.
+  - destruct (IH _ E ltac:(discriminate)) as [Hlt|(H1 & -> & Hall)].
+    + left. pose proof (next_rem c). lia.
+    + destruct (Nat.le_gt_cases 2 (rem c)) as [H2|H1'].
+      * left. pose proof (next_rem_strict c H2). lia.
+      * assert (Hr : rem c = 1%nat) by (unfold rem, current in *; destruct (after c); [discriminate|cbn [length] in *; lia]).
+        right. rewrite (next_last c Hr) in Hall |- *. split; [exact Hr|]. split; [reflexivity|].
+        rewrite Ec in Hall. constructor; [reflexivity|exact Hall].
+Qed.
+
+Lemma is_next_true s c c' : is_next s c = COk true c' -> s <> [] ->
+  (rem c' < rem c)%nat \/ (rem c = 1%nat /\ c' = c /\ Forall (fun e => current c = Some e) s).
+Proof. apply is_next_go_true. Qed.
+
+Lemma is_next_rem s c v c' : is_next s c = COk v c' -> (rem c' <= rem c)%nat.
+Proof.
+  destruct v; intros E.
+  - destruct s as [|e s]; [cbn in E; injection E as <-; lia|].
+    destruct (is_next_true _ _ _ E ltac:(discriminate)) as [H|(_ & -> & _)]; lia.
+  - apply is_next_false in E. subst. lia.
+Qed.
+
+(* a pattern with two different runes cannot match on the last rune of the source *)
+Lemma is_next_true_strict s c c' e1 e2 : is_next s c = COk true c' -> In e1 s -> In e2 s -> e1 <> e2 ->
+  (rem c' < rem c)%nat.
+Proof.
+  intros E H1 H2 Hne. destruct (is_next_true _ _ _ E) as [H|(_ & _ & Hall)]; [destruct s; [destruct H1|discriminate]|exact H|].
+  rewrite Forall_forall in Hall. pose proof (Hall _ H1) as A. pose proof (Hall _ H2) as B. congruence.
+Qed.
+
+Definition pres_lt {A} (n : nat) (r : pres A) : Prop :=
+  match r with POk _ c | PExcluded c => (rem c < n)%nat | _ => True end.
+Definition pres_le {A} (n : nat) (r : pres A) : Prop :=
+  match r with POk _ c | PExcluded c => (rem c <= n)%nat | _ => True end.
+Definition nofuel {A} (r : pres A) : Prop := r <> PFuel.
+
+Lemma cbind_elim {A B} (P : pres B -> Prop) (x : cres A) f :
+  P PEof -> P PPanic -> (forall a c, x = COk a c -> P (f a c)) -> P (cbind x f).
+Proof. intros H1 H2 H3. destruct x; cbn [cbind]; auto. Qed.
+
+Lemma sbind_elim {B} (P : pres B -> Prop) (x : option cursor) f :
+  P PPanic -> (forall c, x = Some c -> P (f c)) -> P (sbind x f).
+Proof. intros H1 H2. destruct x; cbn [sbind]; auto. Qed.
+
+Lemma pbind_elim {A B} (P : pres B -> Prop) (x : pres A) f :
+  P PEof -> P PErr -> P PPanic -> (x = PFuel -> P PFuel) -> (forall c, x = PExcluded c -> P (PExcluded c)) ->
+  (forall a c, x = POk a c -> P (f a c)) -> P (pbind x f).
+Proof. intros. destruct x; cbn [pbind]; auto. Qed.
+
+Ltac triv := solve [exact I | cbn; exact I | discriminate | unfold nofuel; discriminate | intros; exact I | intros; cbn; exact I].
+
+(* the type part of a parameter only moves forward *)
+Lemma after_flag_le name opt bit c n : (rem c <= n)%nat ->
+  pres_le n (cbind (is_next l_vector c) (fun isvec c =>
+    if isvec then
+      let c := skip 1 c in
+      cbind (read_at c_gt c) (fun ty c => POk (mkparam name ty true opt bit) (skip 1 c))
+    else cbind (read_at c_space c) (fun ty c => POk (mkparam name ty false opt bit) c))).
+Proof.
+  intros H. apply cbind_elim; try triv. intros [|] c1 E1; apply is_next_rem in E1.
+  - cbv zeta. apply cbind_elim; try triv. intros ty c2 E2. apply read_at_rem in E2.
+    cbn [pres_le]. pose proof (skip_rem 1 c2). pose proof (skip_rem 1 c1). lia.
+  - apply cbind_elim; try triv. intros ty c2 E2. apply read_at_rem in E2. cbn [pres_le]. lia.
+Qed.
+
+Lemma pres_le_lt {A} n m (r : pres A) : pres_le n r -> (n < m)%nat -> pres_lt m r.
+Proof. destruct r; cbn; intros; try exact I; lia. Qed.
+
+Lemma parse_param_lt c : pres_lt (rem c) (parse_param c).
+Proof.
+  unfold parse_param.
+  apply sbind_elim; [triv|]. intros c1 E1. apply skip_spaces_rem in E1.
+  apply cbind_elim; try triv. intros name c2 E2.
+  pose proof (read_at_rem _ _ _ _ E2) as R2. apply read_at_ok in E2 as (t & _ & ->).
+  destruct t as [|y t].
+  - (* ':' is the last rune: reading the type runs into the end *)
+    vm_compute. exact I.
+  - set (c3 := skip 1 (mkcur (rev name ++ before c1) (c_colon :: y :: t))).
+    assert (H3 : (rem c3 < rem c)%nat) by (pose proof (skip1_strict (rev name ++ before c1) c_colon y t); unfold c3; lia).
+    clearbody c3.
+    apply cbind_elim; try triv. intros [|] c4 E4; apply is_next_rem in E4; cbv zeta.
+    + apply cbind_elim; try triv. intros ds c5 E5. apply read_digits_rem in E5.
+      destruct (atoi ds) as [bit|]; [|triv].
+      apply cbind_elim; try triv. intros [|] c6 E6; [|triv]. apply is_next_rem in E6.
+      eapply pres_le_lt; [apply after_flag_le; reflexivity|lia].
+    + eapply pres_le_lt; [apply after_flag_le; reflexivity|lia].
+Qed.
+
+Lemma parse_param_nofuel c : nofuel (parse_param c).
+Proof.
+  unfold parse_param.
+  assert (Haf : forall name opt bit c, nofuel (cbind (is_next l_vector c) (fun isvec c =>
+    if isvec then
+      let c := skip 1 c in
+      cbind (read_at c_gt c) (fun ty c => POk (mkparam name ty true opt bit) (skip 1 c))
+    else cbind (read_at c_space c) (fun ty c => POk (mkparam name ty false opt bit) c)))).
+  { intros name opt bit c0. apply cbind_elim; try triv. intros [|] c1 _; cbv zeta; apply cbind_elim; try triv; intros ty c2 _; triv. }
+  apply sbind_elim; [triv|]. intros c1 _. apply cbind_elim; try triv. intros name c2 _.
+  apply cbind_elim; try triv. intros [|] c4 _; cbv zeta; [|apply Haf].
+  apply cbind_elim; try triv. intros ds c5 _. destruct (atoi ds); [|triv].
+  apply cbind_elim; try triv. intros [|] c6 _; [apply Haf|triv].
+Qed.
+
+Lemma params_loop_le fuel : forall c acc, pres_le (rem c) (params_loop fuel c acc).
+Proof.
+  induction fuel as [|f IH]; intros c acc; cbn [params_loop]; [exact I|].
+  apply cbind_elim; try triv. intros [|] c1 E1; apply is_next_rem in E1; [cbn [pres_le]; exact E1|].
+  pose proof (parse_param_lt c1) as Hp.
+  apply pbind_elim; try triv.
+  - intros c2 E2. rewrite E2 in Hp. cbn [pres_lt pres_le] in *. lia.
+  - intros p c2 E2. rewrite E2 in Hp. cbn [pres_lt] in Hp.
+    apply sbind_elim; [triv|]. intros c3 E3. apply skip_spaces_rem in E3.
+    specialize (IH c3 (fix_bitflags p :: acc)). destruct (params_loop f c3 (fix_bitflags p :: acc)); cbn [pres_le] in *; try exact I; lia.
+Qed.
+
+Lemma params_loop_nofuel fuel : forall c acc, (rem c < fuel)%nat -> nofuel (params_loop fuel c acc).
+Proof.
+  induction fuel as [|f IH]; intros c acc Hf; [lia|]. cbn [params_loop].
+  apply cbind_elim; try triv. intros [|] c1 E1; apply is_next_rem in E1; [triv|].
+  pose proof (parse_param_lt c1) as Hp. pose proof (parse_param_nofuel c1) as Hn.
+  apply pbind_elim; try triv.
+  - intros E. contradiction.
+  - intros p c2 E2. rewrite E2 in Hp. cbn [pres_lt] in Hp.
+    apply sbind_elim; [triv|]. intros c3 E3. apply skip_spaces_rem in E3. apply IH. lia.
+Qed.
+
+(* one definition: the cursor ends strictly further than it began, and the budget of the parameter loop
+   is not exhausted when it exceeds the number of runes left *)
+Definition good {A} (n : nat) (ok : Prop) (r : pres A) : Prop := pres_lt n r /\ (ok -> nofuel r).
+
+Ltac gtriv := solve [split; [exact I|intros _; discriminate] | intros; split; [exact I|intros _; discriminate]].
+
+Lemma unread_read c1 typ t :
+  after c1 = typ ++ c_space :: t ->
+  unread (length typ) (mkcur (rev typ ++ before c1) (c_space :: t)) = c1.
+Proof.
+  intros E. rewrite <- (rev_length typ), unread_app, rev_involutive, <- E. destruct c1; reflexivity.
+Qed.
+
+Lemma skip_excluded_good {A} c n ok : (rem c < n)%nat -> good n ok (@skip_excluded A c).
+Proof.
+  intros H. unfold skip_excluded. apply cbind_elim; try gtriv. intros w c1 E. apply read_at_rem in E.
+  split; [|intros _; discriminate]. cbn [pres_lt]. pose proof (skip_rem 1 c1). lia.
+Qed.
+
+Lemma parse_definition_good fuel c : good (rem c) (rem c < fuel)%nat (parse_definition fuel c).
+Proof.
+  unfold parse_definition.
+  apply sbind_elim; [gtriv|]. intros c1 E1. apply skip_spaces_rem in E1.
+  apply cbind_elim; try gtriv. intros typ c2 E2.
+  pose proof (read_at_rem _ _ _ _ E2) as R2. apply read_at_ok in E2 as (t & Ea1 & ->).
+  destruct (list_contains excluded_types typ) eqn:Ex.
+  - apply skip_excluded_good. destruct typ as [|x typ]; [vm_compute in Ex; discriminate|]. cbn [length] in R2. lia.
+  - cbv zeta. rewrite (unread_read c1 typ t Ea1).
+    apply cbind_elim; try gtriv. intros name c4 E4.
+    pose proof (read_at_rem _ _ _ _ E4) as R4. apply read_at_ok in E4 as (t4 & Ea4 & ->).
+    destruct (list_contains excluded_definitions name).
+    + unfold skip_excluded. apply cbind_elim; try gtriv. intros w c5 E5.
+      pose proof (read_at_rem _ _ _ _ E5) as R5. destruct (read_at_ok _ _ _ _ E5) as (t5 & Ea5 & _). cbn [after] in Ea5.
+      destruct w as [|x w]; [cbn [app] in Ea5; injection Ea5 as Ebad; vm_compute in Ebad; discriminate|].
+      split; [|intros _; discriminate]. cbn [pres_lt length] in *.
+      pose proof (skip_rem 1 c5). lia.
+    + cbv zeta. destruct t4 as [|y t4].
+      * (* '#' is the last rune *) split; [vm_compute; exact I|intros _; vm_compute; discriminate].
+      * set (c5 := skip 1 (mkcur (rev name ++ before c1) (c_hash :: y :: t4))).
+        assert (H5 : (rem c5 < rem c)%nat) by (pose proof (skip1_strict (rev name ++ before c1) c_hash y t4); unfold c5; lia).
+        clearbody c5.
+        apply cbind_elim; try gtriv. intros crcs c6 E6. apply read_at_rem in E6.
+        apply sbind_elim; [gtriv|]. intros c7 E7. apply skip_spaces_rem in E7.
+        pose proof (params_loop_le fuel c7 []) as Hle.
+        apply pbind_elim; try gtriv.
+        -- intros Ef. split; [exact I|]. intros Hfuel. exfalso. apply (params_loop_nofuel fuel c7 []); [lia|exact Ef].
+        -- intros c8 E8. rewrite E8 in Hle. cbn [pres_le] in Hle. split; [cbn [pres_lt]; lia|intros _; discriminate].
+        -- intros params c8 E8. rewrite E8 in Hle. cbn [pres_le] in Hle.
+           apply sbind_elim; [gtriv|]. intros c9 E9. apply skip_spaces_rem in E9.
+           apply cbind_elim; try gtriv. intros [|] c10 E10; apply is_next_rem in E10; cbv zeta.
+           ++ apply cbind_elim; try gtriv. intros ty c11 E11. apply read_at_rem in E11.
+              destruct (parse_hex32 crcs); [|gtriv]. split; [|intros _; discriminate]. cbn [pres_lt].
+              pose proof (skip_rem 2 c11). pose proof (skip_rem 1 c10). lia.
+           ++ apply cbind_elim; try gtriv. intros ty c11 E11. apply read_at_rem in E11.
+              destruct (parse_hex32 crcs); [|gtriv]. split; [|intros _; discriminate]. cbn [pres_lt].
+              pose proof (skip_rem 1 c11). lia.
+Qed.
+
+Lemma read_at_last_eof x b r : r <> x -> read_at x (mkcur b [r]) = CEof (mkcur b [r]).
+Proof. intros H. unfold read_at; cbn [before after read_at_go]. destruct (N.eqb_spec r x); [contradiction|reflexivity]. Qed.
+
+Lemma main_loop_terminates fuel : forall c isfun objs meths,
+  (rem c + 2 <= fuel)%nat -> main_loop fuel c isfun objs meths <> SFuel.
+Proof.
+  induction fuel as [|f IH]; intros c isfun objs meths Hf; [lia|]. cbn [main_loop].
+  destruct (skip_spaces c) as [c1|] eqn:E1; [|discriminate]. apply skip_spaces_rem in E1.
+  destruct (is_next l_functions c1) as [[|] c2|c2|] eqn:E2; try discriminate.
+  { apply IH. pose proof (is_next_true_strict l_functions c1 c2 45 102 E2) as H.
+    specialize (H ltac:(cbn; auto) ltac:(cbn; auto 20) ltac:(discriminate)). lia. }
+  apply is_next_false in E2. subst c2.
+  destruct (is_next l_types c1) as [[|] c3|c3|] eqn:E3; try discriminate.
+  { apply IH. pose proof (is_next_true_strict l_types c1 c3 45 116 E3) as H.
+    specialize (H ltac:(cbn; auto) ltac:(cbn; auto 20) ltac:(discriminate)). lia. }
+  apply is_next_false in E3. subst c3.
+  destruct (is_next l_slashes c1) as [[|] c4|c4|] eqn:E4; try discriminate.
+  - destruct (read_at c_nl c4) as [line c5|c5|] eqn:E5; try discriminate.
+    destruct (classify_comment line); try discriminate; apply IH; pose proof (skip_rem 1 c5); pose proof (read_at_rem _ _ _ _ E5);
+      (destruct (is_next_true _ _ _ E4 ltac:(discriminate)) as [Hlt|(H1 & -> & Hall)]; [lia|]);
+      exfalso; inversion Hall as [|? ? Hc _]; subst; unfold current, rem in *;
+      destruct c1 as [b [|r [|r' t]]]; cbn [after hd_error length] in *; try discriminate; try lia;
+      injection Hc as ->; rewrite read_at_last_eof in E5 by discriminate; discriminate.
+  - apply is_next_false in E4. subst c4.
+    pose proof (parse_definition_good f c1) as [Hlt Hnf].
+    destruct (parse_definition f c1) as [d c5| |c5| | |] eqn:Ed; try discriminate; cbn [pres_lt] in Hlt.
+    + destruct isfun; [apply IH; lia|]. destruct (d_isvec d); [discriminate|apply IH; lia].
+    + apply IH. lia.
+    + exfalso. apply Hnf; [lia|reflexivity].
+Qed.
+
+Lemma utf8_decode_length_aux n : forall l, (length l <= n)%nat -> (length (utf8_decode l) <= length l)%nat.
+Proof.
+  induction n as [|n IH]; intros l Hl.
+  - destruct l; [cbn; lia|cbn in Hl; lia].
+  - destruct l as [|b0 r0]; [cbn; lia|]. cbn [utf8_decode].
+    repeat match goal with
+           | |- context[if ?x then _ else _] => destruct x
+           | |- context[match utf8_first ?b with _ => _ end] => destruct (utf8_first b) as [[[? ?] ?]|]
+           | |- context[match ?r with [] => _ | _ :: _ => _ end] => is_var r; destruct r
+           end;
+      cbn [length] in *;
+      match goal with |- context[utf8_decode ?r] => pose proof (IH r ltac:(cbn [length] in *; lia)) end; cbn [length] in *; lia.
+Qed.
+
+Lemma utf8_decode_length l : (length (utf8_decode l) <= length l)%nat.
+Proof. apply (utf8_decode_length_aux (length l)). lia. Qed.
+
+Theorem parse_runes_terminates fuel src : (length src + 2 <= fuel)%nat -> parse_runes fuel src <> SFuel.
+Proof.
+  intros H. unfold parse_runes. destruct src as [|r t]; [discriminate|].
+  apply main_loop_terminates. unfold rem, new_cursor; cbn [after]. exact H.
+Qed.
+
+(* the budget [parse] gives itself is never exhausted *)
+Theorem parse_terminates : forall source, parse source <> SFuel.
+Proof.
+  intros source. unfold parse, parse_fuel. apply parse_runes_terminates.
+  pose proof (utf8_decode_length source). unfold default_fuel. lia.
+Qed.
+
+(* linear bound, stated on its own *)
+Theorem parse_fuel_linear : forall source fuel, (length source + 2 <= fuel)%nat -> parse_fuel fuel source <> SFuel.
+Proof.
+  intros source fuel H. unfold parse_fuel. apply parse_runes_terminates. pose proof (utf8_decode_length source). lia.
 Qed.
 
